@@ -62,6 +62,17 @@ def eff_tags(s):
     return t
 
 
+def normalise(d):
+    """history entries must name events the machine knows (an unknown name is an AttributeError of the
+    model, nobody's contract here)"""
+    known = set(ev for ev, _s, _d in expanded_transitions(d))
+    if all(ev in known for _m, ev in d['history']):
+        return d
+    d = dict(d)
+    d['history'] = [h for h in d['history'] if h[1] in known]
+    return d
+
+
 def fingerprint(d):
     return hashlib.sha1(repr(sorted(d.items())).encode()).hexdigest()[:16]
 
@@ -161,18 +172,63 @@ def gen(rng, cls=None, probe=None, featureless=False):
         if (ev, src) not in seen:
             seen.add((ev, src))
             d['transitions'].append([ev, src, dest])
+    if 'Error' in d['feats'] and not featureless and rng.random() < 0.6:
+        # a dead end that is reachable: the Error contract's interesting case
+        dead = rng.choice([n for n in names if n != d['initial']] or names)
+        kept = [t for t in d['transitions'] if t[1] not in ancestors_or_self(dead)]
+        if not any(t[2] == dead for t in kept):
+            src = rng.choice([n for n in names if n not in ancestors_or_self(dead) and not n.startswith(dead + SEP)]
+                             or [d['initial']])
+            ev = rng.choice(events)
+            kept = [t for t in kept if (t[0], t[1]) != (ev, src)] + [[ev, src, dead]]
+        d['transitions'] = kept
+        d['auto'] = d['auto'] and rng.random() < 0.3
+    by = {s['name']: s for s in states}
+
+    def descend(name):
+        while by[name].get('initial'):
+            name = name + SEP + by[name]['initial']
+        return name
+    tr = expanded_transitions(d)
+    if not tr:
+        d['transitions'] = [[events[0], d['initial'], '=']]
+        tr = expanded_transitions(d)
+    events = [e for e in events if any(t[0] == e for t in tr)]
+    evs = events + (['to_' + rng.choice(names)] if d['auto'] else [])
+    cur = [descend(d['initial']) if nested else d['initial'] for _ in range(d['nmodels'])]
+
+    def pick(m):
+        scope = ancestors_or_self(cur[m]) if nested else [cur[m]]
+        ok = [(e, sr, de) for e, sr, de in tr if sr in scope and e in evs]
+        if ok and rng.random() < 0.8:
+            # prefer what the current state can do (tracking is approximate on hierarchical machines)
+            cand = [t for t in ok if t[2] == t[1]] if rng.random() < 0.4 else ok
+            return rng.choice(cand or ok)[0]
+        return rng.choice(evs)
+
+    def advance(m, ev):
+        scope = ancestors_or_self(cur[m]) if nested else [cur[m]]
+        for sc in scope:
+            t = next((t for t in tr if t[0] == ev and t[1] == sc), None)
+            if t is not None:
+                if t[2] is not None:
+                    cur[m] = descend(t[2]) if nested else t[2]
+                return
     hist = []
     n = rng.randint(3, 14)
-    evs = events + (['to_' + rng.choice(names)] if d['auto'] else [])
     while len(hist) < n:
         m = rng.randrange(d['nmodels'])
-        ev = rng.choice(evs)
+        ev = pick(m)
         for _ in range(rng.choice([1, 1, 1, 2, 3, 5])):
             hist.append([m, ev])
+            advance(m, ev)
             if rng.random() < 0.25 and d['nmodels'] > 1:
-                hist.append([rng.randrange(d['nmodels']), rng.choice(evs)])
+                m2 = rng.randrange(d['nmodels'])
+                ev2 = pick(m2)
+                hist.append([m2, ev2])
+                advance(m2, ev2)
     d['history'] = hist[:18]
-    return d
+    return normalise(d)
 
 
 # ---------------------------------------------------------------------------------------------
